@@ -284,7 +284,7 @@ def run(chk):
             if rng.random() < 0.2:
                 digits = "0" * rng.randrange(1, 3) + digits
             return ["num", radix, T(digits)]
-        return ["id", T(rng.choice(["a", "x1", "_b", "c0", "Zed", "label_9", "e", "i", "o"]))]
+        return ["id", T(rng.choice(["a", "x1", "_b", "c0", "Zed", "label_9", "e", "i", "o", "tmp", "flag", "trueval", "Falsey", "TRUE_", "f"]))]
 
     def canon_tight(d):
         t = ["T1", canon_factor(d)]
